@@ -107,10 +107,15 @@ PROVED = {
          "placeholders; global elements after unknown-size masters are covered by the correspondence groups.", ""),
  "C05": ("Theorems: C05_no_panic — for every configuration whose specification passes the derive check (implied_ok), every byte input and every "
          "next()/try_recover() sequence, no call of the abstract reader panics (model Panic outcomes = every unwrap/expect/index/arithmetic site of the "
-         "code path); transferred to the buffered machine for every capacity and calm script; decoders total; an exhausted reader stays exhausted "
-         "(C05_fused); a source I/O error surfaces as an error; try_recover never moves backwards and fails only with end of input. PARTIAL: "
-         "termination within the fuel bound (no hang) and panics outside the modelled sites are covered by the adversarial correspondence runs under "
-         "catch_unwind with hang detection.", ""),
+         "code path); C05_never_out_of_fuel (Proofs/Termination.v) — the fuel the model's loops run with is always sufficient, i.e. every loop of "
+         "read_next / buffer_master (any nesting of buffered masters) / try_recover terminates: a potential (queued items + open masters + 2 x remaining "
+         "bytes) never increases and every successful header consumes a byte; C05_drain_within_limit / C05_drain_length — a full drain yields at most "
+         "slack + 2*|input| + 1 results (slack = deepest declared path, for the implied ancestors), so it ends within the call bound whenever paths are "
+         "<= 63 deep; all transferred to the buffered machine for every capacity and calm script; decoders total; an exhausted reader stays exhausted "
+         "(C05_fused); a source I/O error surfaces as an error; try_recover never moves backwards and fails only with end of input. Model notes found by "
+         "the termination proof: bytes must be < 256 (true of u8), and the run bound 4*|input|+64 of the model is exceeded by specifications deeper than "
+         "~67 levels on 2-byte inputs (Example C05_deep_spec_exceeds_call_bound) — a limit of the model's driver, not of the code. Panics outside the "
+         "modelled sites are covered by the adversarial correspondence runs under catch_unwind with hang detection.", ""),
  "C08": ("PARTIAL. Theorems on the algebraic core: rolling up a well-nested item sequence into a Full and unrolling it gives Start, the flattened "
          "children, End (C08_unroll_rollup_partial); with nothing inside buffered itself the original flat sequence is recovered exactly; a balanced body "
          "is skipped whatever ids it contains (same-id nesting). That buffer_master feeds roll_up exactly the items of the flat parse (the simulation "
